@@ -45,3 +45,12 @@ const (
 )
 
 var VerifErrHeaderCorrupted = errHeaderCorrupted
+
+// test hook: flush, then bytes straight into the cryptoWriter (plaintext level, before encryption)
+func VerifRawWrite(pc *PacketConn, b []byte) error {
+	if err := pc.Flush(); err != nil {
+		return err
+	}
+	_, err := pc.w.Write(b)
+	return err
+}
